@@ -725,6 +725,10 @@ impl TcpConnecter {
     // Initialize backoff state based on inherited attempts
     let reconnect_ivl_max_opt = self.socket_options.reconnect_ivl_max;
     let mut current_retry_delay = initial_reconnect_ivl;
+    // RECONNECT_IVL_MAX, when set, also bounds the very first delay (RECONNECT_IVL > RECONNECT_IVL_MAX).
+    if let Some(max_d) = reconnect_ivl_max_opt.filter(|d| *d > Duration::ZERO) {
+      current_retry_delay = current_retry_delay.min(max_d);
+    }
 
     // Fast-forward delay calculation to current attempt count if we are inheriting state
     if initial_reconnect_ivl > Duration::ZERO {
